@@ -643,6 +643,197 @@ Qed.
 
 End Transparent.
 
+(* ------------------------------------------------------------------ Encoder::append (several parser threads) *)
+
+Definition shift3 (k : N) (a : N * states * list byte) : N * states * list byte := let '(g, l, p) := a in (k + g, l, p).
+Definition shift (k : N) (R : list aentry) : list aentry := map (fun a : aentry => let '(g, l, s) := a in (k + g, l, s)) R.
+
+Lemma abs_from_shift es : forall t k, abs_from (k + t) es = map (shift3 k) (abs_from t es).
+Proof.
+  induction es as [|[[d l] p] r IH]; intros t k; [reflexivity|]. cbn [abs_from map shift3].
+  replace (k + t + d) with (k + (t + d)) by lia. now rewrite IH.
+Qed.
+
+Lemma blocks_abs_shift bl : forall off k, blocks_abs bl (k + off) = map (shift3 k) (blocks_abs bl off).
+Proof.
+  induction bl as [|[[[[s st] ttb] se] es] r IH]; intros off k; [reflexivity|]. cbn [blocks_abs].
+  rewrite map_app, abs_from_shift. f_equal. replace (k + off + N.of_nat (length ttb)) with (k + (off + N.of_nat (length ttb))) by lia.
+  apply IH.
+Qed.
+
+Lemma blocks_abs_app2 bl1 : forall bl2 off,
+  blocks_abs (bl1 ++ bl2) off = blocks_abs bl1 off ++ blocks_abs bl2 (off + blocks_len bl1).
+Proof.
+  induction bl1 as [|[[[[s st] ttb] se] es] r IH]; intros bl2 off.
+  - cbn [app blocks_abs]. unfold blocks_len. cbn [fold_left]. f_equal. lia.
+  - cbn [app blocks_abs]. rewrite IH, <- app_assoc. f_equal. f_equal. f_equal.
+    unfold blocks_len at 2. cbn [fold_left]. rewrite blocks_len_acc. lia.
+Qed.
+
+Lemma blocks_len_app2 bl1 bl2 : blocks_len (bl1 ++ bl2) = blocks_len bl1 + blocks_len bl2.
+Proof. unfold blocks_len at 1. rewrite fold_left_app. fold (blocks_len bl1). apply blocks_len_acc. Qed.
+
+Section Append.
+Variable parse_f64 : list byte -> option (list byte).
+Variable lz_compress : list byte -> list byte.
+Variable cap : N.
+Hypothesis cap_pos : 1 <= cap.
+Hypothesis cap_u16 : cap <= 65536.
+Variable id : nat.
+Variable bits : nat.
+Hypothesis bits_ge2 : (2 <= bits)%nat.
+
+(* an encoder whose pending data has been moved into blocks *)
+Definition fin (e : encoder) (bl : list blk) (R : list aentry) : Prop :=
+  e_new e = false /\ e_blocks e = map (blk_block lz_compress) bl /\ Forall (blk_ok id bits) bl /\
+  blocks_abs bl 0 = map (pack3) R /\ Forall (rec_ok bits) R.
+
+Lemma finish_block_fin e bl es R e1 : sinv lz_compress cap id bits e bl es R ->
+  N.of_nat (length R) * (10 + N.of_nat bits) < 4294967264 ->
+  finish_block lz_compress e = Ok e1 -> exists bl', fin e1 bl' R /\ blocks_len bl' = N.of_nat (length (table e)).
+Proof.
+  intros Hs Hbud H. assert (Htl : N.of_nat (length (table e)) = blocks_len bl + e_len e) by (eapply table_len; eauto).
+  destruct Hs as [Hinv Hcap Hbl Hok Hidle (se & Hn & Htp & Hd & Hwf & Hprev & Hsz) Hcnt Habs Hrec].
+  pose proof Hinv as [Hlen Hnew Hidl Hlast].
+  unfold WaveMem.finish_block in H.
+  destruct (e_new e) eqn:Enew; cbn [negb] in H.
+  - destruct (finish_signals lz_compress (e_signals e) []) as [[sigs' offs] data] eqn:Efs.
+    destruct (last_opt (e_ttr e)) as [stt|] eqn:El; [|cbn in H; discriminate].
+    destruct (hd_error (e_ttr e)) as [endt|] eqn:Eh; [|cbn in H; discriminate].
+    cbn [of_option bind] in H. inversion H; subst e1; clear H.
+    set (x := (e_signals e, stt, rev (e_ttr e), se, es) : blk).
+    assert (Hx : mk_block stt (rev_append (e_ttr e) []) offs data = blk_block lz_compress x).
+    { unfold x, blk_block, block_of. rewrite Efs. now rewrite rev_append_rev, app_nil_r. }
+    exists (bl ++ [x]). split.
+    + unfold fin. cbn [e_new e_blocks]. rewrite Hx. split; [reflexivity|].
+      split; [now rewrite Hbl, map_app|]. split; [|split; [|exact Hrec]].
+      * apply Forall_app. split; [assumption|]. constructor; [|constructor]. unfold x, blk_ok.
+        repeat split; try assumption. nia.
+      * rewrite blocks_abs_app. unfold x. now rewrite N.add_0_l, Habs.
+    + rewrite blocks_len_app. unfold x. rewrite rev_length. lia.
+  - inversion H; subst e1; clear H.
+    assert (Hnil : e_ttr e = []).
+    { destruct (e_ttr e) eqn:E; [reflexivity|]. exfalso. assert (X : false = true) by (apply Hnew; discriminate). discriminate. }
+    rewrite (Hidle Hnil) in Habs. cbn [abs_from] in Habs. rewrite app_nil_r in Habs.
+    exists bl. split; [unfold fin; repeat split; auto|]. rewrite Hnil in Hlen. cbn in Hlen. lia.
+Qed.
+
+Lemma finish_block_idem e : e_new e = false -> finish_block lz_compress e = Ok e.
+Proof. intros H. unfold WaveMem.finish_block. now rewrite H. Qed.
+
+(* Encoder::append: the blocks of the second encoder follow those of the first; its time indices are
+   shifted by the length of the first encoder's time table *)
+Lemma append_fin e o bl1 bl2 R1 R2 e' : fin e bl1 R1 -> fin o bl2 R2 ->
+  append lz_compress e o = Ok e' ->
+  fin e' (bl1 ++ bl2) (R1 ++ shift (blocks_len bl1) R2).
+Proof.
+  intros (Hn1 & Hb1 & Hok1 & Ha1 & Hr1) (Hn2 & Hb2 & Hok2 & Ha2 & Hr2) H.
+  unfold append in H. rewrite (finish_block_idem e Hn1), (finish_block_idem o Hn2) in H. cbn [bind] in H.
+  assert (Hshift : map pack3 (shift (blocks_len bl1) R2) = map (shift3 (blocks_len bl1)) (map pack3 R2)).
+  { unfold shift. rewrite !map_map. apply map_ext. intros [[g l] s]. reflexivity. }
+  assert (Hrs : Forall (rec_ok bits) (shift (blocks_len bl1) R2)).
+  { unfold shift. rewrite Forall_forall in *. intros a Ha. apply in_map_iff in Ha as ([[g l] s] & <- & Hin). exact (Hr2 _ Hin). }
+  destruct (e_blocks o) as [|first rest] eqn:Eo.
+  - inversion H; subst e'; clear H. assert (bl2 = []) by (destruct bl2; [reflexivity|discriminate]). subst bl2.
+    cbn [blocks_abs map] in Ha2. destruct R2; [|discriminate]. cbn [shift map]. rewrite !app_nil_r.
+    unfold fin. repeat split; auto.
+  - destruct (last_opt (e_blocks e)) as [lb|]; [|cbn in H; discriminate]. cbn [of_option bind] in H.
+    destruct (last_opt (b_tt lb)) as [ue|]; [|cbn in H; discriminate]. cbn [of_option bind] in H.
+    destruct (ue <=? b_start first); [|discriminate]. inversion H; subst e'; clear H.
+    unfold fin. cbn [e_new e_blocks]. split; [exact Hn1|]. split; [now rewrite Hb1, Hb2, map_app|].
+    split; [apply Forall_app; now split|]. split; [|apply Forall_app; now split].
+    rewrite blocks_abs_app2, map_app, Ha1, Hshift, <- Ha2.
+    rewrite (N.add_comm 0 (blocks_len bl1)), blocks_abs_shift. reflexivity.
+Qed.
+
+
+Lemma finish_block_new e e1 : finish_block lz_compress e = Ok e1 -> e_new e1 = false.
+Proof.
+  unfold WaveMem.finish_block. destruct (e_new e) eqn:E; cbn [negb]; intros H.
+  - destruct (finish_signals lz_compress (e_signals e) []) as [[a b] c].
+    destruct (last_opt (e_ttr e)); [|discriminate]. destruct (hd_error (e_ttr e)); [|discriminate].
+    cbn in H. inversion H. reflexivity.
+  - inversion H; subst. exact E.
+Qed.
+
+Lemma append_unfold e o e' : append lz_compress e o = Ok e' ->
+  exists e1 o1, finish_block lz_compress e = Ok e1 /\ finish_block lz_compress o = Ok o1 /\ append lz_compress e1 o1 = Ok e'.
+Proof.
+  intros H. unfold append in H.
+  destruct (finish_block lz_compress e) as [e1| |] eqn:E1; try discriminate. cbn [bind] in H.
+  destruct (finish_block lz_compress o) as [o1| |] eqn:E2; try discriminate. cbn [bind] in H.
+  exists e1, o1. split; [reflexivity|]. split; [reflexivity|]. unfold append.
+  rewrite (finish_block_idem e1 (finish_block_new e e1 E1)), (finish_block_idem o1 (finish_block_new o o1 E2)). exact H.
+Qed.
+
+Lemma append_first_fin e e1 o : finish_block lz_compress e = Ok e1 -> append lz_compress e o = append lz_compress e1 o.
+Proof.
+  intros H. unfold append. rewrite H. cbn [bind]. now rewrite (finish_block_idem e1 (finish_block_new e e1 H)).
+Qed.
+
+(* finishing the first encoder up front does not change the result of appending and finishing *)
+Lemma append_all_first first others e r : append_all lz_compress first others = Ok e -> enc_finish lz_compress e = Ok r ->
+  exists f1, finish_block lz_compress first = Ok f1 /\
+             exists e', append_all lz_compress f1 others = Ok e' /\ enc_finish lz_compress e' = Ok r.
+Proof.
+  intros Ha Hf. destruct others as [|o rest]; cbn [append_all] in Ha.
+  - inversion Ha; subst e. unfold WaveMem.enc_finish in Hf.
+    destruct (finish_block lz_compress first) as [f1| |] eqn:E; try discriminate. cbn [bind] in Hf.
+    exists f1. split; [reflexivity|]. exists f1. split; [reflexivity|].
+    unfold WaveMem.enc_finish. rewrite (finish_block_idem f1 (finish_block_new first f1 E)). exact Hf.
+  - destruct (append lz_compress first o) as [a| |] eqn:Ea; try discriminate. cbn [bind] in Ha.
+    destruct (append_unfold first o a Ea) as (f1 & o1 & F1 & _ & _).
+    exists f1. split; [exact F1|]. exists e. split; [|exact Hf].
+    cbn [append_all]. rewrite <- (append_first_fin first f1 o F1), Ea. exact Ha.
+Qed.
+
+(* the entries of several recordings, each shifted by the total length of the time tables before it *)
+Fixpoint cat_shift (l : list (list aentry * N)) (off : N) : list aentry :=
+  match l with
+  | [] => []
+  | (R, n) :: r => shift off R ++ cat_shift r (off + n)
+  end.
+
+Lemma shift_shift a b R : shift a (shift b R) = shift (a + b) R.
+Proof. unfold shift. rewrite map_map. apply map_ext. intros [[g l] s]. f_equal. f_equal. lia. Qed.
+
+Lemma shift_app k R1 R2 : shift k (R1 ++ R2) = shift k R1 ++ shift k R2.
+Proof. unfold shift. apply map_app. Qed.
+
+Lemma shift_0 R : shift 0 R = R.
+Proof. unfold shift. rewrite <- (map_id R) at 2. apply map_ext. intros [[g l] s]. reflexivity. Qed.
+
+(* one recording per parser thread: its encoder state after all its operations *)
+Definition thread_ok (x : encoder * list blk * list sentry * list aentry) : Prop :=
+  let '(e, bl, es, R) := x in
+  sinv lz_compress cap id bits e bl es R /\ N.of_nat (length R) * (10 + N.of_nat bits) < 4294967264.
+
+Lemma fin_len e bl R : fin e bl R -> blocks_len bl = N.of_nat (length (flat_map b_tt (e_blocks e))).
+Proof. intros (_ & Hb & _). rewrite Hb. apply eq_sym, flat_tt_len. Qed.
+
+Lemma append_all_fin : forall (ths : list (encoder * list blk * list sentry * list aentry)) acc bla Ra e',
+  fin acc bla Ra -> Forall thread_ok ths ->
+  append_all lz_compress acc (map (fun x => fst (fst (fst x))) ths) = Ok e' ->
+  exists bls, Forall2 (fun b x => blocks_len b = N.of_nat (length (table (fst (fst (fst x)))))) bls ths /\
+    fin e' (bla ++ concat bls)
+        (Ra ++ cat_shift (combine (map (fun x => snd x) ths) (map blocks_len bls)) (blocks_len bla)).
+Proof.
+  induction ths as [|[[[o blo] eso] Ro] ths IH]; intros acc bla Ra e' Hf Hok H; cbn [map append_all] in H.
+  - inversion H; subst e'. exists []. cbn [concat combine cat_shift map]. rewrite !app_nil_r. split; [constructor|exact Hf].
+  - apply Forall_cons_iff in Hok as [[Hs Hbud] Hok]. cbn [fst] in H.
+    destruct (append lz_compress acc o) as [a| |] eqn:Ea; try discriminate. cbn [bind] in H.
+    destruct (append_unfold acc o a Ea) as (acc1 & o1 & F1 & F2 & Ea').
+    assert (acc1 = acc).
+    { destruct Hf as (Hn & _). rewrite (finish_block_idem acc Hn) in F1. now inversion F1. } subst acc1.
+    destruct (finish_block_fin o blo eso Ro o1 Hs Hbud F2) as (blo' & Hfo & Hlo).
+    pose proof (append_fin acc o1 bla blo' Ra Ro a Hf Hfo Ea') as Hfa.
+    destruct (IH a _ _ e' Hfa Hok H) as (bls & Hl & Hfe).
+    exists (blo' :: bls). split; [constructor; [exact Hlo|exact Hl]|].
+    cbn [concat map combine cat_shift snd]. rewrite <- !app_assoc in Hfe. rewrite blocks_len_app2 in Hfe. exact Hfe.
+Qed.
+
+End Append.
+
 (* ------------------------------------------------------------------ independence of the segmentation *)
 
 Lemma decodes_fun bits a b r : decodes bits a r -> decodes bits b r -> a = b.
@@ -696,3 +887,107 @@ Example storage_example :
     (do s <- load_signal (fun d _ => Some d) blocks 0 (EncBits 3); observe_signal s)
     = Ok [(0, KFour, [49; 120; 48]); (2, KBinary, [49; 49; 49]); (3, KFour, [122; 122; 122])].
 Proof. cbn zeta. do 3 eexists. vm_compute. repeat split; reflexivity. Qed.
+
+(* ------------------------------------------------------------------ several encoders (parser threads) appended *)
+Section Threads.
+Variable parse_f64 : list byte -> option (list byte).
+Variable lz_compress : list byte -> list byte.
+Variable lz_decompress : list byte -> nat -> option (list byte).
+Hypothesis lz_ok : forall d n, (length d <= n)%nat -> lz_decompress (lz_compress d) n = Some d.
+Variable cap : N.
+Hypothesis cap_pos : 1 <= cap.
+Hypothesis cap_u16 : cap <= 65536.
+Variable id : nat.
+Variable bits : nat.
+Hypothesis bits_ge2 : (2 <= bits)%nat.
+
+(* loading from a finished encoder *)
+Lemma fin_load e bl R blocks ttb : fin lz_compress id bits e bl R ->
+  enc_finish lz_compress e = Ok (blocks, ttb) -> N.of_nat (length ttb) < 4294967296 ->
+  exists sig, load_signal lz_decompress blocks id (EncBits bits) = Ok sig /\
+              observe_signal sig = outcome_map render_of (dedup R).
+Proof.
+  intros (Hn & Hb & Hok & Habs & Hrec) Hfin Hlen.
+  unfold WaveMem.enc_finish in Hfin. rewrite (finish_block_idem lz_compress e Hn) in Hfin. cbn [bind] in Hfin.
+  inversion Hfin; subst blocks ttb; clear Hfin. rewrite Hb in *.
+  destruct (load_signal_blocks lz_compress lz_decompress lz_ok id bits bl bits_ge2 Hok) as (mx & Hmx & Hload).
+  eexists. split; [exact Hload|].
+  assert (Hrok : Forall (rok bits mx) R).
+  { rewrite Forall_forall in *. intros a Ha. split; [now apply Hrec|].
+    destruct a as [[g l] s]. cbn [fst snd].
+    assert (Hin : In (g, l, write_n_state_loop l s 0 None) (blocks_abs bl 0)).
+    { rewrite Habs. change (g, l, write_n_state_loop l s 0 None) with (pack3 (g, l, s)). now apply in_map. }
+    destruct (blocks_abs_in bl 0 _ _ _ Hin) as (x & Hx & Hd).
+    specialize (Hok x Hx). specialize (Hmx x Hx). destruct x as [[[[sg st] tb] se] es'].
+    destruct Hd as [d Hd]. destruct Hok as (_ & _ & Hwf & _). rewrite Forall_forall in Hwf.
+    specialize (Hwf _ Hd). destruct Hwf as [(_ & Hle & _) _].
+    assert (es' <> []) by (intros ->; destruct Hd). specialize (Hmx H). lia. }
+  rewrite blks_spec_fold by (rewrite N.add_0_l, <- (flat_tt_len lz_compress bl); exact Hlen). rewrite Habs.
+  replace (map (wide3 mx bits) (map pack3 R)) with (map (wide_of mx bits) R)
+    by (rewrite map_map; apply map_ext; intros [[g l] s]; reflexivity).
+  pose proof (push_canon_dedup bits bits_ge2 mx R [] Hrok ltac:(constructor)) as Hd.
+  cbn [map app last_opt option_map] in Hd. rewrite Hd.
+  apply observe_entries; [exact bits_ge2|].
+  rewrite Forall_forall in *. intros a Ha. apply dedup_by_in in Ha. specialize (Hrok a Ha).
+  destruct a as [[g l] s]. destruct Hrok as [(H1 & H2 & _) H3]. cbn [fst snd] in *. repeat split; assumption.
+Qed.
+
+(* Storage half of C03/C04 "however the recording was divided among parser threads": k encoders, each fed
+   its own history, appended in order and finished.  The loaded signal reports the recordings of the
+   threads one after the other, each thread's time indices shifted by the lengths of the time tables
+   before it, de-duplicated across the seams as well. *)
+Theorem appended_transparent tpes (opss : list (list enc_op)) (encs : list encoder) first others e blocks ttb :
+  nth_error tpes id = Some (EncBits bits) ->
+  Forall2 (fun ops en => run_ops parse_f64 lz_compress cap (enc_new tpes) ops = Ok en) opss encs ->
+  Forall (fun ops => Forall (op_ok id) ops /\ N.of_nat (count_vcd id ops) * (10 + N.of_nat bits) < 4294967264) opss ->
+  encs = first :: others ->
+  append_all lz_compress first others = Ok e ->
+  enc_finish lz_compress e = Ok (blocks, ttb) -> N.of_nat (length ttb) < 4294967296 ->
+  exists Rs sig,
+    Forall2 (fun R ops => Forall2 (decodes bits) R (recorded id ops [] false)) Rs opss /\
+    load_signal lz_decompress blocks id (EncBits bits) = Ok sig /\
+    observe_signal sig
+    = outcome_map render_of
+        (dedup (cat_shift (combine Rs (map (fun ops => N.of_nat (length (accepted (times_of ops)))) opss)) 0)).
+Proof.
+  intros Htp Hruns Hops Hencs Happ Hfin Hlen.
+  (* every thread: its invariant state and its decoded recording *)
+  assert (Hth : exists ths : list (encoder * list blk * list sentry * list aentry),
+            map (fun x => fst (fst (fst x))) ths = encs /\ Forall (thread_ok lz_compress cap id bits) ths /\
+            Forall2 (fun R ops => Forall2 (decodes bits) R (recorded id ops [] false)) (map (fun x => snd x) ths) opss /\
+            Forall2 (fun x ops => table (fst (fst (fst x))) = accepted (times_of ops)) ths opss).
+  { clear Hencs Happ. induction Hruns as [|ops en opss encs Hrun Hruns IH].
+    - exists []. repeat split; constructor.
+    - apply Forall_cons_iff in Hops as [[Hok Hbud] Hops]. destruct (IH Hops) as (ths & Hm & Hto & Hdec & Htab).
+      destruct (run_ops_sinv parse_f64 lz_compress cap cap_pos cap_u16 id bits bits_ge2 ops _ [] [] [] en
+                  (sinv_new lz_compress cap cap_pos cap_u16 id bits bits_ge2 tpes Htp) Hok ltac:(cbn [length Nat.add]; exact Hbud) Hrun)
+        as (bl & es & R & Hs & Hrec).
+      cbn [app] in Hs. change (table (enc_new tpes)) with (@nil N) in Hrec. cbn [enc_new e_skip] in Hrec.
+      assert (HlenR : (length R <= count_vcd id ops)%nat) by (rewrite (forall2_length _ _ _ Hrec); apply recorded_length).
+      destruct (run_ops_inv parse_f64 lz_compress cap cap_pos ops _ _ (inv_new_enc tpes) Hrun) as [_ Ht].
+      exists ((en, bl, es, R) :: ths). cbn [map fst snd]. split; [now rewrite Hm|]. split; [|split].
+      + constructor; [|exact Hto]. split; [exact Hs|nia].
+      + constructor; assumption.
+      + constructor; [|exact Htab]. cbn [fst]. rewrite Ht. reflexivity. }
+  destruct Hth as (ths & Hm & Hto & Hdec & Htab).
+  destruct ths as [|[[[f blf] esf] Rf] ths]; [rewrite Hencs in Hm; discriminate|].
+  cbn [map fst] in Hm. rewrite Hencs in Hm. injection Hm as Hf Hothers. subst f.
+  apply Forall_cons_iff in Hto as [[Hsf Hbf] Hto].
+  destruct opss as [|ops0 opss]; [inversion Hdec|].
+  inversion Hdec as [|? ? ? ? Hdec0 Hdecs]; subst. inversion Htab as [|? ? ? ? Htab0 Htabs]; subst. cbn [fst snd] in *.
+  (* finish the first encoder; the rest of the computation does not notice *)
+  destruct (append_all_first lz_compress first _ e (blocks, ttb) Happ Hfin) as (f1 & Ef & e' & Happ' & Hfin').
+  destruct (finish_block_fin parse_f64 lz_compress cap cap_pos cap_u16 id bits bits_ge2 first blf esf Rf f1 Hsf Hbf Ef) as (blf' & Hfin1 & Hl1).
+  destruct (append_all_fin parse_f64 lz_compress cap cap_pos cap_u16 id bits bits_ge2 ths f1 blf' Rf e' Hfin1 Hto Happ') as (bls & Hlens & Hfe).
+  destruct (fin_load e' _ _ blocks ttb Hfe Hfin' Hlen) as (sig & Hload & Hobs).
+  exists (Rf :: map (fun x => snd x) ths), sig. split; [constructor; assumption|]. split; [exact Hload|].
+  rewrite Hobs. f_equal. f_equal. cbn [map combine cat_shift]. rewrite shift_0. f_equal.
+  rewrite N.add_0_l, Hl1, Htab0. f_equal.
+  (* the block lengths of the other threads are the lengths of their accepted time tables *)
+  clear -Hlens Htabs. revert bls opss Hlens Htabs. induction ths as [|t0 ths IH]; intros bls opss Hl Ht.
+  - inversion Hl; subst. reflexivity.
+  - inversion Hl as [|b ? bls' ? Hb Hl']; subst. inversion Ht as [|? ops ? opss' Ho Ht']; subst.
+    cbn [map combine]. f_equal; [f_equal; now rewrite Hb, Ho|]. now apply IH.
+Qed.
+
+End Threads.
